@@ -174,8 +174,8 @@ impl TplLitType {
     pub fn describe(&self) -> String {
         match self.0.as_slice() {
             [TplLitTypeItem::StringConst(single_str)] => {
-                let inner = single_str.clone();
-                format!("\"{}\"", inner)
+                // a string literal: quotes, backslashes and line breaks inside it are escaped
+                serde_json::to_string(single_str).unwrap_or_else(|_| format!("\"{}\"", single_str))
             }
             _ => {
                 let inner = self
@@ -185,7 +185,11 @@ impl TplLitType {
                         TplLitTypeItem::String => "${string}".to_string(),
                         TplLitTypeItem::Number => "${number}".to_string(),
                         TplLitTypeItem::Boolean => "${boolean}".to_string(),
-                        TplLitTypeItem::StringConst(v) => v.clone(),
+                        // literal text of a template: what would end it or open a hole is escaped
+                        TplLitTypeItem::StringConst(v) => v
+                            .replace('\\', "\\\\")
+                            .replace('`', "\\`")
+                            .replace("${", "\\${"),
                         TplLitTypeItem::OneOf(values) => {
                             let mut values = values.iter().collect::<Vec<_>>();
                             values.sort();
